@@ -182,3 +182,116 @@ def _simple_contract(kind):
 
 for _k in _PRODUCERS + (None,):
     CONTRACTS.append(_simple_contract(_k))
+
+
+# =================================================================================================
+# EntityPlacer._place_entity_prop_write (C06): what is recorded for `entity.prop = value` IS the value assigned.
+#   bundle condition (any / all)  -> the signal, operator and constant of the condition, and the entity becomes a reader of the bundle
+#   enable = <inlinable comparison> -> exactly the comparison _try_inline_comparison returned (its contract above), the comparison
+#                                    node is named for removal, and the ENTITY (no longer the removed decider) becomes a reader of the
+#                                    compared signal
+#   any other signal / bundle     -> a reference to THAT value, and the entity becomes a reader of it
+#   an integer                    -> that integer, no reader
+# and nothing at all for an entity that does not exist.  Property `enable` and one other property name (bounded), values symbolic.
+# =================================================================================================
+PW = {}
+_REFT = ty.TObj("SignalRef", only=("SignalRef",))
+_INLINE = ty.TOpt(ty.TRecord((("left_signal", ty.Str), ("comparator", ty.Str), ("right_constant", ty.Int), ("signal_type", ty.Str))))
+
+
+def _pw_reset(a):
+    PW.clear()
+    return True
+
+
+def _pw_get_placement(ex, a):
+    from pyvc.ghost import ghost
+    op = ex.args_ns.op
+    key = a.args[0]
+    if key is op.entity_id:
+        return ghost(op, "placement", ty.TOpt(ty.TObj("EntityPlacement", only=("EntityPlacement",), ftypes=(("properties", ty.TConcrete({})),))))
+    return ghost(op, "comparison_placement", ty.TOpt(ty.TObj("EntityPlacement", only=("EntityPlacement",), ftypes=(("properties", ty.TConcrete({"debug_info": {"variable": "cmp"}})),))))
+
+
+def _pw_inline(ex, a):
+    from pyvc.ghost import ghost
+    PW.setdefault("inline_asked", []).append(a.signal_ref)
+    d = ghost(ex.args_ns.op, "inline", _INLINE)
+    if d is not None and "copy" not in PW:
+        PW["copy"] = dict(d)
+        return PW["copy"]
+    return PW.get("copy") if d is not None else None
+
+
+def _pw_sink(ex, a):
+    PW.setdefault("sinks", []).append((a.value_ref, a.consumer_id))
+    return None
+
+
+def _pw_remove(ex, a):
+    PW.setdefault("removed", []).append(tuple(a.args))
+    return None
+
+
+def _pw_post(prop):
+    def post(a, res):
+        op = a.op
+        placement = op._fields.get("@placement")
+        sinks, removed = PW.get("sinks", []), PW.get("removed", [])
+        if placement is None:
+            return not sinks and not removed
+        writes = placement.properties.get("property_writes")
+        if not isinstance(writes, dict) or set(writes) != {prop}:
+            return False
+        w = writes[prop]
+        cond = op.inline_bundle_condition
+        v = op.value
+        is_ref = isinstance(v, SObj) and "SignalRef" in v._cls_set
+        kind = w.get("type")
+        if cond is not None:
+            src = cond.get("input_source")
+            return (kind == "inline_bundle_condition" and w["signal"] is cond["signal"] and w["operator"] is cond["operator"] and w["constant"] is cond["constant"]
+                    and not removed and (len(sinks) == 1 and sinks[0][0] is src and sinks[0][1] is op.entity_id if src is not None else not sinks))
+        inline = op._fields.get("@inline") if (is_ref and prop == "enable") else None
+        if inline is not None:
+            data = w.get("comparison_data")
+            if kind != "inline_comparison" or data is not PW.get("copy") or data.get("source_node_id_to_remove") is not v.source_id:
+                return False
+            nodes = a.self._ir_nodes.lookups
+            node = nodes[-1][1] if nodes else None
+            from pyvc.ghost import isa
+            if node is not None and isa(node, "IRDecider") is True and isinstance(node.left, SObj):
+                return (len(sinks) == 1 and sinks[0][0] is node.left and sinks[0][1] is op.entity_id
+                        and len(removed) == 1 and removed[0][0] is node.left.source_id and removed[0][1] is v.source_id)
+            return not sinks and not removed
+        if is_ref:
+            return kind == "signal" and w["signal_ref"] is v and len(sinks) == 1 and sinks[0][0] is v and sinks[0][1] is op.entity_id and not removed
+        if isinstance(v, SObj):
+            return kind == "bundle" and w["bundle_ref"] is v and len(sinks) == 1 and sinks[0][0] is v and sinks[0][1] is op.entity_id and not removed
+        return kind == "constant" and w["value"] is v and not sinks and not removed
+    return post
+
+
+_COND_T = ty.TRecord((("signal", ty.Str), ("operator", ty.Str), ("constant", ty.Int), ("input_source", ty.TOpt(_REFT))))
+for _prop in ("enable", "recipe"):
+    for _cond_name, _cond in (("no bundle condition", ty.TConcrete(None)), ("bundle condition", _COND_T)):
+        CONTRACTS.append(Contract(
+            qualname=EP + "_place_entity_prop_write",
+            params={"self": ty.TObj("EntityPlacer", only=("EntityPlacer",)),
+                    "op": ty.TObj("IREntityPropWrite", only=("IREntityPropWrite",), ftypes=(
+                        ("entity_id", ty.Str), ("property_name", ty.TConcrete(_prop)), ("inline_bundle_condition", _cond),
+                        ("value", ty.TUnion((ty.Int, _REFT, ty.TObj("BundleRef", only=("BundleRef",)))))))},
+            requires=[("(reset capture)", _pw_reset)],
+            ensures=[("the recorded write is the assigned value (bundle condition / exactly the inlined comparison / a reference to the value / the integer) and the entity reads what it needs", _pw_post(_prop))],
+            uses={"opaque.get_placement": Contract(qualname="dsl_compiler/src/layout/layout_plan.py::LayoutPlan.get_placement", params={"args": _OPQ}, effect=_pw_get_placement, verify=False,
+                                                   note="dictionary lookup of the placement (None when absent)"),
+                  "EntityPlacer._try_inline_comparison": Contract(qualname=EP + "_try_inline_comparison", params={"self": _OPQ, "signal_ref": _OPQ}, effect=_pw_inline, verify=False,
+                                                                  note="proved above: None, or the comparison of the single-consumer decider that produces the reference"),
+                  "EntityPlacer._add_signal_sink": Contract(qualname=EP + "_add_signal_sink", params={"self": _OPQ, "value_ref": _OPQ, "consumer_id": _OPQ}, effect=_pw_sink, verify=False,
+                                                            note="registers the consumer as a reader of the reference"),
+                  "opaque.remove_sink": Contract(qualname="dsl_compiler/src/layout/signal_graph.py::SignalGraph.remove_sink", params={"args": _OPQ}, effect=_pw_remove, verify=False,
+                                                 note="removes a reader (recorded)"),
+                  "opaque.info": "skip", "opaque.warning": "skip"},
+            dynamic_types={"self": {"plan": ty.TOpaque("plan"), "signal_graph": ty.TOpaque("graph"), "diagnostics": ty.TOpaque("diag"),
+                                    "_ir_nodes": ty.TObjMap(ty.Str, ty.TObj("IRNode", only=("IRDecider", "IRArith"), ftypes=(("left", ty.TUnion((ty.Int, _REFT))),)))}},
+            properties=("C06",), min_obligations=3, no_replay=True, note=f"{_prop}; {_cond_name}"))
